@@ -4,7 +4,12 @@
 def _walk(name, qb, tb):
     return dict(kind="walk", name="DecisionCache-" + name, module="DecisionCache", pkg="collect/cache", test="TestVerifDecisionCache",
                 harness=["collect/cache/c31_test.go"],
-                cfg={"quick": f"MC_DecisionCache_{name}.cfg", "thorough": f"MC_DecisionCache_{name}_big.cfg"},
+                alternatives=[
+                    # 1. the implementation-shaped model: structure and answers must match exactly
+                    dict(name="impl", cfg={"quick": f"MC_DecisionCache_{name}.cfg", "thorough": f"MC_DecisionCache_{name}_big.cfg"}),
+                    # 2. promise-only (SpecP): only lookup answers are observed, anything the statement allows is accepted
+                    dict(name="promise", cfg={"quick": f"MC_DecisionCache_{name}_p.cfg", "thorough": f"MC_DecisionCache_{name}_p_big.cfg"}),
+                ][::-1 if __import__("os").environ.get("C31_PROMISE_FIRST") else 1],
                 budget={"quick": qb, "thorough": tb})
 
 
@@ -20,7 +25,12 @@ PROP = dict(
                "dropped from the moment of the record while the recent set holds it (RecordDroppedAnswered, RecentSticks). Four scenario configurations (kept / mix / cap / drop) are dumped as transition graphs and "
                "every transition is executed on the real cache: the returned record (kept/dropped/none, rate, interned reason, span counts), the Maintain gauges and the Resize error are compared with the model's, "
                "and the LRU order, filter membership, recent set, queue length, filter loads and capacities after every step.",
-    level_note="Exhaustive only within the bounds (see spec/MC_DecisionCache_*.cfg). The add-queue goroutine is stopped after construction and its loop body is run by the Drain action; Maintain is called directly "
+    level_note="Two alternatives per walk stage, the check passes if the code conforms to either: (1) 'impl', the implementation-shaped model above (filter structure, loads and capacities compared exactly); "
+               "(2) 'promise', SpecP of the same module: only the answers of CheckSpan/CheckTrace are observed and every answer the statement allows is accepted - the keptCap kept decisions most recently recorded or "
+               "answered kept must answer kept with the recorded rate and reason (or dropped if ever recorded dropped), a settled dropped record must answer dropped while fewer than Retain(capacity) = slots/2-1 further dropped "
+               "records were settled under regular maintenance (capacity in force = smallest DroppedSize so far; void after a Resize that lowers it across a filter size class), a fresh dropped record must answer dropped to CheckSpan; "
+               "remembering longer, other rotation/creation moments and other internal sizes are accepted. TLC checks (thorough, MC_DecisionCache_bridge.cfg) that the implementation-shaped model honours that numeric promise (PromiseHeldByModel). "
+               "Exhaustive only within the bounds (see spec/MC_DecisionCache_*.cfg). The add-queue goroutine is stopped after construction and its loop body is run by the Drain action; Maintain is called directly "
                "(its internal 1 ms drain time-out is avoided by draining first); recentDroppedIDs runs on a fake clock and only 'all recent entries expire' is explored (C32 covers TTL instants). "
                "False positives are excluded by choosing trace ids with pairwise distinct fingerprints that may live in either bucket (established through the filter's public API), so the filter is exact for the ids used; "
                "an insert into a full filter may lose any one fingerprint and every such outcome is accepted. Add-queue overflow (1000 pending ids) is not explored. Concurrency of Record/Check/Resize is C35's subject, not explored here. "
@@ -28,5 +38,6 @@ PROP = dict(
     assumptions=["clockwork.FakeClock is faithful", "panmari/cuckoofilter: 4-slot buckets, capacity<=3 -> 1 bucket, 4..7 -> 2 buckets (checked by the harness at Reset)",
                  "bounded: 2-3 trace ids, kept capacity 1-3, filter of 4/8 slots, add queue <= 2"],
     stages=[_walk("kept", 20, 120), _walk("mix", 20, 120), _walk("cap", 25, 90), _walk("drop", 30, 120),
+            dict(kind="tlc", name="DecisionCache-bridge", module="DecisionCache", cfg={"quick": None, "thorough": "MC_DecisionCache_bridge.cfg"}, workers=8, timeout=540),
             dict(kind="tlc", name="DecisionCache-full", module="DecisionCache", cfg={"quick": None, "thorough": "MC_DecisionCache_full.cfg"}, workers=8, timeout=540)],
 )
